@@ -71,7 +71,7 @@ def confirm(part, kwargs, native):
     if rp.get("ok", False):
         return {"confirmed": False, "what": "does not reproduce on a real directory", "stage2": rp}
     return {"confirmed": True, "key": _classify(part, kwargs, rp), "stage2": rp,
-            "what": f"{part.func} sel={part.sel} {json.dumps(kwargs)}: {rp.get('exc')}",
+            "what": f"{part.func} sel={part.sel} {json.dumps(kwargs, default=repr)}: {rp.get('exc')}",
             "script": f'''# replay of a solver counterexample for C19 on a real temporary directory
 import sys, json
 sys.path.insert(0, "/verif")
